@@ -687,7 +687,7 @@ fn rnsp_rerun(scn: &Value) -> Option<Vec<(String, String, String)>> {
 }
 
 fn one_run(i: usize, run_seed: u64) -> RunOut {
-    if i % 40 == 23 {
+    if i % 16 == 7 {
         return rnsp_run(i, run_seed);
     }
     let mut out = RunOut::default();
